@@ -611,7 +611,7 @@ def user_edit(rng, cw, flt_hint=None, manifests=True):
     k = rng.random()
     if k < 0.3 and D:
         d = rng.choice(D)
-        world.write(d['path'], rng.choice([d['bytes'], b'user version\n', b'other\n'])); return 'collide'
+        world.write(d['path'], rng.choice([d['bytes'], b'user version\n', b'other\n', b''])); return 'collide'
     if k < 0.45:
         tree = world_tree(sb)
         deployed = [p for p in tree if not is_manifest_name(os.path.basename(p))]
@@ -1187,6 +1187,49 @@ def hist_readd_after_removal(st, cw, sb, rng, hs):
         return {'kind': 'rollback', 'to': 0, 'tags': ['script:rollback_to_S0', 'user:recreate']}
     return None
 
+def hist_restore_over_user_files(st, cw, sb, rng, hs):
+    """S0; the user deletes some deployed files and puts files of their own (empty ones included) in the place of others
+    and at the output paths of a newly added prompt; `evolve restore` is create-only: it writes the missing files and
+    leaves every existing one — whatever it holds, even nothing — alone"""
+    if st == 0: return {'kind': 'deploy', 'adopt': False, 'flt': None, 'entry': 'cli_json', 'tags': ['script:all']}
+    if st in (1, 2):
+        tags = []
+        D = [d for d in cw.desired(None) if os.path.exists(d['path']) and not os.path.islink(d['path'])]
+        for d in rng.sample(D, min(len(D), rng.randrange(1, 4))):
+            k = rng.random()
+            if k < 0.4: os.remove(d['path']); tags.append('user:delete')
+            elif k < 0.75: world.write(d['path'], b''); tags.append('user:empty_file')
+            else: world.write(d['path'], b'the user took this path\n'); tags.append('user:takeover')
+        if rng.random() < 0.6:
+            before = {d['path'] for d in cw.desired(None)}
+            cw.add_prompt(); cw.write()
+            for d in cw.desired(None):
+                if d['path'] not in before and not os.path.lexists(d['path']) and rng.random() < 0.7:
+                    world.write(d['path'], rng.choice([b'', b'mine\n'])); tags.append('user:placeholder_at_new_output')
+        return {'kind': 'restore', 'tags': tags + ['script:restore']}
+    return None
+
+def hist_fallback_after_rollback(st, cw, sb, rng, hs):
+    """S0; a prompt is added (S1); rollback to S0 (its record is now the LATEST deployment snapshot); the configuration
+    goes back to S0's, the user creates a file of their own where S1 had put the prompt, and every manifest is lost
+    (re-cloned project, gitignored manifests): the snapshot fallback is the latest record — the rollback's — which does
+    not list the user's file"""
+    if st == 0: return {'kind': 'deploy', 'adopt': False, 'flt': None, 'entry': 'cli_json', 'tags': ['script:all']}
+    if st == 1: cw.add_prompt(); cw.write(); return {'kind': 'deploy', 'adopt': False, 'flt': None, 'entry': 'cli_json', 'tags': ['script:add']}
+    if st == 2: return {'kind': 'rollback', 'to': 0, 'tags': ['script:rollback_to_S0']}
+    if st == 3:
+        m = cw.modules[-1]; m['enabled'] = True
+        paths = [d['path'] for d in cw.desired(None) if os.path.basename(d['path']).split('.')[0] == sorted(m['files'])[0].split('.')[0]]
+        m['enabled'] = False; cw.write()
+        for q in paths: world.write(q, b'the user\'s own file at a path a rolled-back deployment used\n')
+        n = 0
+        for r in cw.roots(None):
+            for q in (r['root'] + '/' + mf_name(r['target']), r['root'] + '/' + LEGACY):
+                if os.path.exists(q): os.remove(q); n += 1
+        return {'kind': 'deploy', 'adopt': False, 'flt': None, 'entry': rng.choice(['cli_json', 'cli_human_yes', 'mcp']),
+                'tags': ['script:all_manifests_lost', 'user:recreate', 'manifests_removed:%d' % n]}
+    return None
+
 def hist_drift_then_deploy(st, cw, sb, rng, hs):
     """S0; the user edits a deployed file; the module changes and S1 rewrites that file; rollback to S0 brings back
     S0's bytes (from the snapshot's own copy, not from the backup S1 took of the drifted file)"""
@@ -1599,7 +1642,12 @@ def run_hist_stream(ctx, nhist, depth, props, weights, stream='full_hist', tampe
                         for vio in oracle_rollback(ctx, props, hs, ordn, before, after, sb, base, rec):
                             pass
                         S = hs.snaps[ordn]
-                        hs.snaps.append({'kind': 'rollback', 'flt': S['flt'], 'disk_after': after, 'config': S['config'], 'adopted': set(), 'touched': {},
+                        # what this rollback itself created, rewrote or deleted counts as touched by agentpack after every earlier
+                        # snapshot (a later rollback to one of those must undo it as well)
+                        tmap = {d['path']: d['target'] for sn_ in hs.snaps for d in sn_['D']}
+                        rb_touched = {p: tmap.get(p) for p in set(before) | set(after)
+                                      if before.get(p) != after.get(p) and not is_manifest_name(os.path.basename(p)) and p in tmap}
+                        hs.snaps.append({'kind': 'rollback', 'flt': S['flt'], 'disk_after': after, 'config': S['config'], 'adopted': set(), 'touched': rb_touched,
                                          'D': S['D'], 'R': S['R'], 'to': ordn})
                         # ledger: what the snapshot lists is (re)written, what the head listed beyond it is deleted
                         for p in set(before) | set(after):
